@@ -226,7 +226,7 @@ theorem tx_queue_addr (data : List UInt8) (hd : data.length < 65535) (addr : UIn
 def TxPost (F : List UInt8) (h : Handle) (g g' : TxG) (h' : Handle) : Prop :=
   g'.poison = false ∧ g'.Conserved ∧
   ( (g'.ended = false ∧ g'.cbs = g.cbs ∧ TxSt F h' ∧ h.received.toNat ≤ h'.received.toNat
-      ∧ g'.handed = F.take h'.received.toNat ∧ h'.txCb = h.txCb ∧ h'.opmod = h.opmod)
+      ∧ g'.handed = F.take h'.received.toNat ∧ h'.txCb = h.txCb ∧ h'.opmod = h.opmod ∧ h'.activeModem = h.activeModem)
     ∨
     ((g'.irq &&& 0x08 ≠ 0 ∨ (g'.irq &&& 0x40 ≠ 0 ∧ g'.out = g'.handed)) ∧ g'.handed = g.handed
       ∧ ((h.txCb = true ∧ g'.ended = true ∧ g'.cbs = g.cbs ++ [.tx])
@@ -234,7 +234,7 @@ def TxPost (F : List UInt8) (h : Handle) (g g' : TxG) (h' : Handle) : Prop :=
 
 theorem txpost_same {F h g g1} (hst : TxSt F h) (hlive : g.live) (hc : g.Conserved) (hh : g.handed = F.take h.received.toNat)
     (hl : g.Later g1) : TxPost F h g g1 h :=
-  ⟨(hl.live hlive).1, hl.cons hc, Or.inl ⟨(hl.live hlive).2, hl.cbs, hst, Nat.le_refl _, hl.handed.trans hh, rfl, rfl⟩⟩
+  ⟨(hl.live hlive).1, hl.cons hc, Or.inl ⟨(hl.live hlive).2, hl.cbs, hst, Nat.le_refl _, hl.handed.trans hh, rfl, rfl, rfl⟩⟩
 
 
 theorem tx_complete {F h g g2} (hst : TxSt F h) (hlive : g.live) (hc : g.Conserved) (hl : g.Later g2)
@@ -333,7 +333,7 @@ theorem tx_invocation (fuel : Nat) (F : List UInt8) (h : Handle) (g : TxG) (hst 
             rw [UInt16.toNat_add, h1]
             have := hst.len; have := h.expected.toNat_lt
             omega
-          refine ⟨hlive3.1, hc3, Or.inl ⟨hlive3.2, hcbs3.trans hl02.cbs, ?_, ?_, ?_, rfl, rfl⟩⟩
+          refine ⟨hlive3.1, hc3, Or.inl ⟨hlive3.2, hcbs3.trans hl02.cbs, ?_, ?_, ?_, rfl, rfl, rfl⟩⟩
           · exact ⟨hst.len, hst.fits, hst.frame, by show (h.received + ts.toUInt16).toNat ≤ _; rw [hsum]; exact hfit⟩
           · show h.received.toNat ≤ (h.received + ts.toUInt16).toNat; rw [hsum]; omega
           · show g3.handed = F.take (h.received + ts.toUInt16).toNat
@@ -382,7 +382,7 @@ theorem C04_session (fuel : Nat) (F : List UInt8) (h : Handle) (g : TxG) (hst : 
     · have hpost := Prog.gwp_runs hrun (tx_invocation fuel F h1 g1 hst1 hm1 ⟨hp1, hne⟩ hc1 hh1)
       obtain ⟨hp2, hc2, hcase2⟩ := hpost
       refine ⟨hp2, hc2, ?_⟩
-      rcases hcase2 with ⟨he2, hcbs2, hst2, _, hh2, hcb2, hm2⟩ | ⟨hdone, hh2, hfin⟩
+      rcases hcase2 with ⟨he2, hcbs2, hst2, _, hh2, hcb2, hm2, _⟩ | ⟨hdone, hh2, hfin⟩
       · exact Or.inl ⟨he2, hcbs2.trans hcbs1, hst2, hm2.trans hm1, hcb2.trans hcb1, hh2⟩
       · rcases hfin with ⟨_, he2, hcbs2⟩ | ⟨hno, _⟩
         · exact Or.inr ⟨he2, by rw [hcbs2, hcbs1], ⟨_, hh2.trans hh1⟩, hdone⟩
@@ -497,7 +497,8 @@ theorem C04_step_on_chip_obs (n0 : Nat) (F : List UInt8) (c : SysCfg) (hnr : c.N
     (hr : TxRunning n0 F c s h g) (sched : List (Nat × Env)) (faults : List (Nat × Code))
     (hsched : ∀ e ∈ sched, e.2 = .txShift ∨ e.2 = .txSent) :
     match s.step c (.api .irq sched faults) with
-    | (s', .ret _ cbs _) => ∃ h' g', s'.handle = some h' ∧ TxPost F h g g' h' ∧ g'.cbs = g.cbs ++ cbs.map (·.ev)
+    | (s', .ret _ cbs _) => ∃ h' g', s'.handle = some h' ∧ TxPost F h g g' h' ∧ g'.cbs = g.cbs ++ cbs.map (·.ev) ∧
+        (g'.ended = false → ∃ k, TxChip n0 s'.world.chip (g'.fifo.drop k) ∧ (c.cached = true → s'.world.cache.WF))
     | (_, .ub _) => True
     | (_, _) => False := by
   unfold Sys.step
@@ -519,12 +520,64 @@ theorem C04_step_on_chip_obs (n0 : Nat) (F : List UInt8) (c : SysCfg) (hnr : c.N
   | ub u w => trivial
   | done rh w =>
     obtain ⟨r, h'⟩ := rh
-    obtain ⟨g', ⟨_, htie⟩, hpost⟩ := hex
-    refine ⟨h', g', rfl, hpost, ?_⟩
-    rcases htie with hb | ht
-    · have hb' : g'.poison = true := hb
-      rw [hpost.1] at hb'; cases hb'
-    · have ht' : g'.cbs = g.cbs ++ (w.cbs.map (·.ev)).reverse := ht
-      rw [ht', List.map_reverse]
+    obtain ⟨g', ⟨hab, htie⟩, hpost⟩ := hex
+    refine ⟨h', g', rfl, hpost, ?_, fun hne => ?_⟩
+    · rcases htie with hb | ht
+      · have hb' : g'.poison = true := hb
+        rw [hpost.1] at hb'; cases hb'
+      · have ht' : g'.cbs = g.cbs ++ (w.cbs.map (·.ev)).reverse := ht
+        rw [ht', List.map_reverse]
+    · have hw := abs_live ⟨hpost.1, hne⟩ hab
+      obtain ⟨k, hk⟩ := fold_tx (fun i => i ≥ w.xfer) w.sched hw.sched w.chip g'.fifo hw.chip
+      exact ⟨k, hk, hw.cache⟩
+
+/-! ### a transmission on the chip model, step by step -/
+
+/-- **the modulator does something between two operations of the host** (takes a byte, or reports
+    PacketSent): the transmission is still running, with the ghost FIFO shifted accordingly -/
+theorem TxRunning.event {n0 F c s h g} (hr : TxRunning n0 F c s h g) (e : Env) (he : e = .txShift ∨ e = .txSent) :
+    ∃ k, TxRunning n0 F c (s.step c (.env e)).1 h (g.shift k) ∧ (s.step c (.env e)).2 = .env := by
+  obtain ⟨k, hk⟩ := txchip_event hr.chip e he
+  refine ⟨k, ⟨hr.handle, hr.st, hr.modem, hr.mode, (TxG.later_shift g k).live hr.live, TxG.shift_conserved hr.cons k, ?_, hk, hr.cache⟩, rfl⟩
+  exact (TxG.later_shift g k).handed.trans hr.handed
+
+/-- **the host runs the interrupt handler** (either build, any modulator events before any of its
+    transfers, any failing transfers; no application reaction): either the transmission is still
+    running and the application saw nothing, or the chip reported completion and the application
+    saw exactly one transmit callback (none if no callback is registered, with the per-packet
+    state reset) -/
+theorem TxRunning.irq {n0 F c s h g} (hnr : c.NoReact) (hr : TxRunning n0 F c s h g) (sched : List (Nat × Env))
+    (faults : List (Nat × Code)) (hsched : ∀ e ∈ sched, e.2 = .txShift ∨ e.2 = .txSent) :
+    match s.step c (.api .irq sched faults) with
+    | (s', .ret _ cbs _) =>
+        (∃ h' g', TxRunning n0 F c s' h' g' ∧ cbs.map (·.ev) = [] ∧ g'.cbs = g.cbs ∧ h.received.toNat ≤ h'.received.toNat) ∨
+        (cbs.map (·.ev) = [.tx] ∧ h.txCb = true) ∨
+        (cbs.map (·.ev) = [] ∧ h.txCb = false ∧ s'.handle = some (resetState h))
+    | (_, .ub _) => True
+    | (_, _) => False := by
+  have := C04_step_on_chip_obs n0 F c hnr s h g hr sched faults hsched
+  generalize hst : s.step c (.api .irq sched faults) = st at this
+  obtain ⟨s', o⟩ := st
+  cases o with
+  | ub u => trivial
+  | skipped => exact this
+  | env => exact this
+  | ret r cbs bus =>
+    obtain ⟨h', g', hh', hpost, hcbs, hch⟩ := this
+    obtain ⟨hpois, hcons, hcase⟩ := hpost
+    have cancel : ∀ l : List CbEvent, g'.cbs = g.cbs ++ l → g.cbs ++ cbs.map (·.ev) = g.cbs ++ l := fun l e => by rw [← hcbs, e]
+    rcases hcase with ⟨hend, e, hst', hmono, hhand, hcb, hop, hmo⟩ | ⟨_, _, hfin⟩
+    · obtain ⟨k, hk, hcache⟩ := hch hend
+      left
+      refine ⟨h', g'.shift k, ⟨hh', hst', by rw [hmo]; exact hr.modem, hop.trans hr.mode, ?_, TxG.shift_conserved hcons k, ?_, hk, hcache⟩, ?_, ?_, hmono⟩
+      · exact (TxG.later_shift g' k).live ⟨hpois, hend⟩
+      · exact (TxG.later_shift g' k).handed.trans hhand
+      · exact List.append_cancel_left (cancel [] (by rw [e]; simp))
+      · rw [(TxG.later_shift g' k).cbs]; exact e
+    · rcases hfin with ⟨hcb, _, e⟩ | ⟨hcb, _, e, hreset⟩
+      · right; left
+        exact ⟨List.append_cancel_left (cancel _ e), hcb⟩
+      · right; right
+        exact ⟨List.append_cancel_left (cancel [] (by rw [e]; simp)), hcb, by rw [hh', hreset]⟩
 
 end Sx
